@@ -179,6 +179,30 @@ def build_cases(ctx, trees):
 # a repository input is outside the quantifier when it contains the excluded construct of the known
 # finding (with) - decided on the INPUT text - or a function declaration nested in a block (sloppy-mode
 # Annex B.3.3 semantics are not modelled in JsScope)
+def drift(ctx, exe, trees):
+    """D vs C (information only): the model's prediction with the real alphabet against the real output"""
+    usable = [t for t in trees if not G.tree_uses_outer_from_with(t['units'])]
+    pick = vlib.sample(usable, 500 if ctx.quick() else 6000, ctx.rnd)
+    cases = [dict(id=i, src=G.render_plain(t)) for i, t in enumerate(pick)]
+    proj = minify_and_project(ctx, exe, cases, 'drift')
+    lines, kept = [], []
+    for t, c, e in zip(pick, cases, proj):
+        if e['st'] != 'ok':
+            continue
+        lines.append(dict(units=t['units'], pairs=sorted(set(zip(e['keep'], e['ren'])))))
+        kept.append((c, e))
+    if not lines:
+        return
+    vlib._speccopy(ctx)
+    accepted, rejects = vlib.tlc_trace(ctx, 'C02Drift', 'C02Drift.cfg', lines, min_per_shard=150)
+    ctx.coverage['design_model_predictions_compared'] = len(lines)
+    ctx.coverage['design_model_drift'] = len(rejects)
+    ctx.coverage['design_model_drift_samples'] = [
+        dict(src=kept[k][0]['src'], shortened=kept[k][1]['_ren_text']) for k, _ in rejects[:3]]
+    if rejects:
+        vlib.log('C02: DRIFT (information, not a verdict): %d of %d model predictions differ from the code' % (len(rejects), len(lines)))
+
+
 def repo_skip(c, e):
     if re.search(r'\bwith\s*\(', c['src']):
         return 'with'
@@ -244,6 +268,8 @@ def run(ctx):
     accepted, why = validate(ctx, [proj[i] for i in idx], 'main')
     why = {idx[k]: w for k, w in why.items()}
     vlib.log('C02: TLC validated %d programs at %.0fs (%d rejected)' % (len(idx), time.time() - t0, len(why)))
+    drift(ctx, exe, trees)
+    vlib.log('C02: drift comparison done at %.0fs' % (time.time() - t0))
 
     # every rejected program is minified and projected again ALONE (fresh driver and node processes) and
     # re-validated (one TLC run over the re-recorded lines) before it counts
@@ -300,10 +326,17 @@ def run(ctx):
         rejections=len(why), rejections_reproduced=reproduced,
         longest_generated_name=longest,
         rule='a case is one program minified with KeepVarNames on and off; non-trivial = both outputs have the same '
-             'tree and at least one occurrence is spelled differently. Generators exclude the construct of the known '
-             'finding: a with statement whose body references a renamable binding declared outside the innermost '
-             'function containing it (repository inputs containing `with(` and those with a function declaration '
-             'nested in a block are outside the quantifier: counted in projection_status, not judged)',
+             'tree and at least one occurrence is spelled differently. Generators exclude the narrow constructs of the '
+             'known findings (known/C02.txt; witnesses pinned and replayed on every run): (1) a with statement whose '
+             'body references a renamable binding declared outside the innermost function containing it; (2) a loop '
+             'body block that re-declares the loop variable name and refers to it before the inner declaration; '
+             '(3) declarations inside a class static block; (4) parameter defaults/patterns and array/object literals '
+             'with identifiers inside an object-literal method written inside a parenthesised expression; (5) a '
+             'function whose parameter default references a name that its body declares with var, or declares at all '
+             'when the function has a rest parameter. Repository inputs containing `with(` and those with a function '
+             'declaration nested in a block (Annex B.3.3 not modelled) are outside the quantifier: counted in '
+             'projection_status, not judged. Programs whose name-keeping output does not parse (var hoisted next to '
+             'a let of the same name - a C09 matter) have no reference world: counted in keep_output_unparseable, not judged',
         samples=samples,
     ))
     ctx.assumptions += [
